@@ -84,6 +84,23 @@ def _suffix(t):
     return None
 
 
+def match(key, name):
+    """True: same column; False: provably different; AnalysisError: cannot decide (symbolic names that may coincide)."""
+    if key == name:
+        return True
+    if not possibly_equal(key, name):
+        return False
+    ck, cn = const_name(key), const_name(name)
+    if ck is not None and cn is not None:
+        return ck == cn
+    if key[0] == "fstr" and name[0] == "fstr" and len(key[1]) == len(name[1]):
+        holes_k = [p for p in key[1] if p[0] != "const"]
+        holes_n = [p for p in name[1] if p[0] != "const"]
+        if holes_k == holes_n:
+            return False  # same holes, different constant parts
+    raise AnalysisError(f"cannot decide whether column {ir.show(key)} is {ir.show(name)} (bind the estimand to a constant)")
+
+
 class Frames:
     def __init__(self, builder, bases=None):
         self.b = builder
@@ -108,18 +125,17 @@ class Frames:
         k = fr[0]
         if k == "setitem":
             obj, key, val = fr[1], fr[2], fr[3]
-            if key == name:
-                return self.value(val, obj)
             if key[0] == "list":
-                if any(names_equal(x, name) for x in key[1]):
+                if any(match(x, name) for x in key[1]):
                     raise AnalysisError(f"multi-column assignment to {ir.show(key)} not resolved")
                 return self.col(obj, name)
-            if possibly_equal(key, name) and not (const_name(key) and const_name(name)):
-                # symbolic names that may coincide: only distinct if provably different
-                if self._distinct(key, name):
-                    return self.col(obj, name)
-                raise AnalysisError(f"cannot decide whether column {ir.show(key)} is {ir.show(name)}")
-            return self.col(obj, name)
+            if key[0] in ("const", "fstr"):
+                if match(key, name):
+                    return self.value(val, obj)
+                return self.col(obj, name)
+            if key[0] == "tuple":
+                raise AnalysisError(f".loc assignment {ir.show(key, maxdepth=3)} not resolved")
+            raise AnalysisError(f"assignment with computed key {ir.show(key, maxdepth=3)}")
         if k == "phi":
             a, b = self.col(fr[2], name), self.col(fr[3], name)
             return a if a == b else ("phi", fr[1], a, b)
@@ -128,7 +144,11 @@ class Frames:
             # column assigned in a generic iteration?
             t = body
             while t[0] == "setitem":
-                if t[2] == name:
+                try:
+                    hit = match(t[2], name)
+                except AnalysisError:
+                    hit = _unify_elem(t[2], name)
+                if hit:
                     return self.value(t[3], t[1])
                 t = t[1]
             return self.col(fr[3], name)
@@ -150,10 +170,10 @@ class Frames:
                     if cols is None or cols[0] != "dict":
                         raise AnalysisError("rename without a literal columns mapping")
                     for old, new in cols[1]:
-                        if new == name:
+                        if match(new, name):
                             return self.col(recv, old)
                     for old, new in cols[1]:
-                        if old == name:
+                        if match(old, name):
                             raise AnalysisError(f"column {ir.show(name)} was renamed away")
                     return self.col(recv, name)
                 if m == "fillna":
@@ -161,7 +181,7 @@ class Frames:
                     v = self.col(recv, name)
                     if arg is not None and arg[0] == "dict":
                         for kk, vv in arg[1]:
-                            if kk == name:
+                            if match(kk, name):
                                 if vv == ("const", 0):
                                     return ("fill0", v)
                                 return ("fill", v, vv)
@@ -173,9 +193,9 @@ class Frames:
                     for kk, vv in fr[3]:
                         if kk is None and vv[0] == "dict":
                             for k2, v2 in vv[1]:
-                                if k2 == name:
+                                if match(k2, name):
                                     return self._assign_value(v2, recv)
-                        elif kk is not None and ("const", kk) == name:
+                        elif kk is not None and match(("const", kk), name):
                             return self._assign_value(vv, recv)
                     return self.col(recv, name)
                 if m == "merge":
@@ -364,6 +384,13 @@ class Frames:
         if k == "phi":
             return ("phi", v[1], self.value(v[2], ctx_frame), self.value(v[3], ctx_frame))
         return v
+
+
+def _unify_elem(key, name):
+    """inside a loop over estimands: f'residuals_{elem}' unifies with f'residuals_{estimand}' (same constant parts)"""
+    if key[0] == "fstr" and name[0] == "fstr" and len(key[1]) == len(name[1]):
+        return all((a == b) if a[0] == "const" else b[0] != "const" for a, b in zip(key[1], name[1]))
+    return False
 
 
 def strip(v):
